@@ -175,6 +175,9 @@ class WrapperGenerator:
             'beartype._util.func.utilfunccodeobj.get_func_codeobject_or_none': codeobj,
             'beartype._util.func.utilfunctest.is_func_codeobjable': lambda e, a, k: isinstance(arg(a, k, 0, 'func'), (AFunc, ACode)),
             'beartype._util.func.utilfunctest.is_func_boundmethod': lambda e, a, k: False,
+            # a pure-Python *function* object (as opposed to the bound __call__ of a pseudo-callable, which has a code
+            # object but is no FunctionType)
+            'beartype._util.func.utilfunctest.is_func_python': lambda e, a, k: bool(getattr(arg(a, k, 0, 'func'), 'is_function', True)),
             'beartype._util.hint.pep.proposal.pep749.pep649749annotate.get_hintable_pep649749_annotations':
                 lambda e, a, k: dict(arg(a, k, 0, 'hintable').__annotations__),
             'beartype._check.convert.convmain.sanify_hint_root_func': sanify_root,
